@@ -252,6 +252,9 @@ func runC14(c *Ctx) {
 	}
 	// 5. whole servers: TCP over an in-memory pipe (sequential per connection) and UDP on loopback
 	c14Transport(c, r)
+	// forced interleaving on real UDP servers: an accepted-but-undecodable datagram, then two requests in flight
+	heldDatagrams(c, r, "udp")
+	heldDatagrams(c, r, "pc")
 }
 
 type tagHandler struct{ tag string }
